@@ -54,7 +54,7 @@ func TestWalkVisitsEveryEnabledSequenceOnce(t *testing.T) {
 			t.Fatalf("history %q visited twice", k)
 		}
 		seen[k] = true
-		if w.Len() != len(trace)+1 {
+		if w.Len() < len(trace)+1 {
 			t.Fatalf("world has %d uploads for trace %q", w.Len(), k)
 		}
 		return true
